@@ -210,3 +210,51 @@ theorem ends_error (r : Option Nat) (pool : Nat) (s : Tgl α) (t : Nat) (err : E
 end Tgl
 
 end Win
+namespace Win
+variable {α : Type}
+namespace Cnt
+
+theorem run_append (count skip : Nat) (s : Cnt α) (l1 l2 : List (Nat × Ev α)) :
+    run count skip s (l1 ++ l2) = run count skip (run count skip s l1) l2 := by
+  induction l1 generalizing s with
+  | nil => rfl
+  | cons te l ih => obtain ⟨t, e⟩ := te; simp only [List.cons_append, run]; exact ih _
+
+theorem ctl_run_nexts (count skip : Nat) (tx : List (Nat × α)) (s : Cnt α) (h : s.b.primary = false) :
+    (run count skip s (nexts tx)).b.ctl = s.b.ctl := by
+  induction tx generalizing s with
+  | nil => rfl
+  | cons p tx ih =>
+    obtain ⟨t, x⟩ := p
+    simp only [nexts, List.map_cons, run]
+    have hstep : (step count skip ({ s with b := { s.b with now := t } } : Cnt α) (.src 0 (.next x))).b.ctl = s.b.ctl := by
+      simp only [step]; split
+      · have h2 : ({ s with b := { s.b with now := t } } : Cnt α).b.primary = false := h
+        rw [ctl_onNext _ _ _ _ h2]; rfl
+      · rfl
+    have hp : (step count skip ({ s with b := { s.b with now := t } } : Cnt α) (.src 0 (.next x))).b.primary = false := by
+      have := hstep; simp only [Base.ctl, Prod.mk.injEq] at this; rw [this.1]; exact h
+    have := ih _ hp
+    simp only [nexts] at this
+    rw [this, hstep]
+
+end Cnt
+end Win
+namespace Win
+variable {α : Type}
+namespace Cnt
+
+theorem ended_kept (count skip : Nat) (s : Cnt α) (t : Nat) (e : Option Err) (hl : s.b.live.contains 0 = true)
+    (j : Nat) (hj : (s.b.endedOf j).isSome = true) :
+    ((Cnt.mach count skip).step s t (.src 0 (endNotif e))).b.endedOf j = s.b.endedOf j := by
+  have hl' : ({ s with b := { s.b with now := t } } : Cnt α).b.live.contains 0 = true := hl
+  cases e with
+  | none =>
+    simp only [mach, step, hl', if_true, endNotif, onEnd, Base.endedOf_unsub, Base.endedOf_outerEnd]
+    exact (Base.foldl_winEnd s.q none ({ s.b with now := t } : Base α)).2.2.1 j hj
+  | some err =>
+    simp only [mach, step, hl', if_true, endNotif, onEnd, Base.endedOf_unsub, Base.endedOf_outerEnd]
+    exact (Base.foldl_winEnd s.q (some err) ({ s.b with now := t } : Base α)).2.2.1 j hj
+
+end Cnt
+end Win
